@@ -140,7 +140,23 @@ def _run_real(case, variant, kw=None, pinned=True):
     return _MEMO[key]
 
 
+_NRUN = [0]
+
+
+def _housekeeping():
+    """every new closure is a new XLA compilation: drop the compilation caches regularly (JIT code memory is finite)"""
+    _NRUN[0] += 1
+    if _NRUN[0] % 40 == 0:
+        try:
+            _jax()["jax"].clear_caches()
+            import gc
+            gc.collect()
+        except Exception:
+            pass
+
+
 def _run_real_(case, variant, kw, pinned):
+    _housekeeping()
     J = _jax()
     opt = J["opt"]
     try:
@@ -234,6 +250,7 @@ def _close(xr, xm, tol=XTOL):
 # ------------------------------------------------------------------------------------------------ trust-region tie
 def _run_trust_recorded(case):
     """real `_trust_ncg` with a recording wrapper around the real sub-problem solver (host callback)"""
+    _housekeeping()
     J = _jax()
     jax, opt = J["jax"], J["opt"]
     from nifty.re import conjugate_gradient as cgm
